@@ -176,7 +176,7 @@ func (g *ExprGen) selector(parts []string) string {
 	return b.String()
 }
 
-var regexPool = []string{`^a`, `a+`, `^(foo|bar)`, `.*`, `[0-9]+`, `^web-[0-9]$`, `(`, `^$`, `b.r`, `[`, `(?i)FOO`, `\pL+`}
+var regexPool = []string{`^a`, `a+`, `^(foo|bar)`, `.*`, `[0-9]+`, `^web-[0-9]$`, `(`, `^$`, `b.r`, `^[a-z]+$`, `(?i)FOO`, `\pL+`, `o`, `^.{0,3}$`}
 
 func (g *ExprGen) strLit(sample string, hit bool) string {
 	if hit {
@@ -190,7 +190,7 @@ func (g *ExprGen) strLit(sample string, hit bool) string {
 }
 
 func (g *ExprGen) numLit(cat string, v reflect.Value, hit bool) string {
-	if g.R.Chance(0.08) {
+	if g.R.Chance(0.05) {
 		return g.R.Pick([]string{`"abc"`, `1.5`, `-0`, `999999999999999999999`, `true`, "`x`", `0x10`})
 	}
 	switch cat {
@@ -303,6 +303,14 @@ func (g *ExprGen) leaf(p scopePath, depth int) string {
 	case "slice":
 		if depth > 0 && g.R.Chance(0.45) {
 			return "( " + g.quantifier(p, depth) + " )"
+		}
+		if p.Val.IsValid() && p.Val.Kind() == reflect.Slice && p.Val.Type().Elem().Kind() == reflect.Uint8 && g.R.Chance(0.6) {
+			// []byte values are matched as text
+			re := g.R.Pick(regexPool)
+			if neg {
+				return sel + " not matches " + g.quote(re)
+			}
+			return sel + " matches " + g.quote(re)
 		}
 		elemLit := `"a"`
 		if p.Val.IsValid() && p.Val.Len() > 0 {
@@ -514,7 +522,7 @@ func (g *ExprGen) tree(scope []scopePath, depth int, width int) string {
 	pick := func() scopePath { return scope[g.R.Intn(len(scope))] }
 	if width <= 0 || g.R.Chance(0.45) {
 		p := pick()
-		if g.R.Chance(0.08) {
+		if g.R.Chance(0.05) {
 			p = scopePath{PathInfo: PathInfo{Parts: []string{g.R.Pick([]string{"missing", "Nope", "secret", "Skip", "hidden"})}, Cat: "other"}, prefix: p.prefix}
 		}
 		return g.leaf(p, depth)
